@@ -25,9 +25,29 @@ def dt_of(us):
 ZONES = [None, timezone(timedelta(hours=5, minutes=30)), timezone(timedelta(hours=-8)), None, timezone(timedelta(hours=14))]
 
 
+def _fold_instants():
+    """pairs of instants one repeated hour apart whose wall-clock reading in a tz-database zone is THE SAME (fold=0 / fold=1): as Python
+    datetimes in that zone the two compare equal and hash alike, although they are different instants"""
+    out = {}
+    pairs = []
+    for zone, (y, mo, d, h, mi) in (("America/New_York", (2021, 11, 7, 5, 30)), ("Europe/London", (2021, 10, 31, 0, 30)), ("Europe/London", (2022, 10, 30, 0, 15))):
+        a = (datetime(y, mo, d, h, mi, tzinfo=timezone.utc) - EPOCH) // timedelta(microseconds=1)
+        b = a + 3600 * 1000000
+        out[a] = out[b] = zone
+        pairs.append((a, b))
+    return out, pairs
+
+
+FOLD_ZONE, FOLD_PAIRS = _fold_instants()
+
+
 def zoned_dt(us):
-    """the instant `us` as an aware datetime in a zone chosen by the instant itself (UTC, +05:30, -08:00, +14:00):
-    what a caller hands in; equal instants in different zones must behave alike"""
+    """the instant `us` as an aware datetime in a zone chosen by the instant itself (UTC, +05:30, -08:00, +14:00; the instants of FOLD_PAIRS
+    in their tz-database zone, where two of them share one wall-clock reading): what a caller hands in; equal instants in different zones
+    must behave alike, different instants differently"""
+    if us in FOLD_ZONE:
+        from zoneinfo import ZoneInfo
+        return dt_of(us).astimezone(ZoneInfo(FOLD_ZONE[us]))
     z = ZONES[(us // 1000000) % len(ZONES)]
     d = dt_of(us)
     return d if z is None else d.astimezone(z)
@@ -224,7 +244,10 @@ def real_query(tf, q, builders=None):
             fn, args = twins.TESTS[t[1]]
             return base.test(fn, *args)
     if k == "noop":
-        return {"time": tf.TimeQuery, "meas": tf.MeasurementQuery, "tags": tf.TagQuery, "fields": tf.FieldQuery}[q[1]]().noop()
+        base = {"time": tf.TimeQuery, "meas": tf.MeasurementQuery, "tags": tf.TagQuery, "fields": tf.FieldQuery}[q[1]]()
+        for key in q[2:]:                    # ("noop", attr, key, ...): noop() called on a builder that already names keys - still "everything"
+            base = base[key]
+        return base.noop()
     if k == "and":
         return real_query(tf, q[1], builders) & real_query(tf, q[2], builders)
     if k == "or":
